@@ -518,18 +518,21 @@ func TestVerif_C32(t *testing.T) {
 			depth int
 			root  qpeerGen
 			exec  func(*vx.Ctx, *vx.W, c32Case)
+			seed  []string
 		}
 		parts := []part{
-			{"send", []string{"uni"}, sendOps, vx.Pick(c, 5, 6), c32SendGen{}, c32ExecSend},
-			{"send-bidi", []string{"bidi", "accepted"}, sendOps, vx.Pick(c, 4, 5), c32SendGen{}, c32ExecSend},
-			{"recv", []string{"uni", "bidi"}, recvOps, vx.Pick(c, 5, 6), c32RecvGen{m: c32RecvModel{fs: -1}}, c32ExecRecv},
+			{"send", []string{"uni"}, sendOps, vx.Pick(c, 5, 6), c32SendGen{}, c32ExecSend, nil},
+			{"send-bidi", []string{"bidi", "accepted"}, sendOps, vx.Pick(c, 4, 5), c32SendGen{}, c32ExecSend, nil},
+			// seeded start state: 2 bytes received, both read, the second one through the lock-free fast path
+			{"recv-after-fast-read", []string{"uni", "bidi"}, recvOps, vx.Pick(c, 3, 4), c32RecvGen{m: c32RecvModel{fs: -1}}, c32ExecRecv, []string{"d+", "rd1", "rd1"}},
+			{"recv", []string{"uni", "bidi"}, recvOps, vx.Pick(c, 5, 6), c32RecvGen{m: c32RecvModel{fs: -1}}, c32ExecRecv, nil},
 		}
 		for _, p := range parts {
 			vx.Enumerate(c, p.name, vx.Opts{Serial: true, Crumb: true}, func(yield0 func(c32Case) bool) {
 				yield := qpeerDeadlineYield(c, yield0)
 				for _, side := range sides {
 					for _, kind := range p.kinds {
-						if !qpeerEnumerate(p.root, p.ops, p.depth, func(path []string) bool {
+						if !qpeerEnumerateFrom(p.root, p.seed, p.ops, p.depth, func(path []string) bool {
 							return yield(c32Case{Side: side, Kind: kind, Win: 150, Ops: path})
 						}) {
 							return
